@@ -359,6 +359,9 @@ func runC01(c *Ctx) {
 	for _, d := range chunkBoundaryDocs() {
 		one(0, "chunk-boundary", d)
 	}
+	for _, d := range deepNestDocs() {
+		one(0, "deep-nesting", d)
+	}
 	orc.Flush()
 	_ = fmt.Sprint
 }
